@@ -12,6 +12,7 @@
 import IbicusModel.Lemmas.Grid
 import IbicusModel.Lemmas.GridState
 import IbicusModel.Lemmas.GenGridDispatch
+import IbicusModel.Model.GridRefresh
 
 namespace Props.C05
 open Model.Grid Lemmas.Grid Lemmas.GridState
@@ -438,6 +439,86 @@ example : applySerialSt counting false 1 2 3 0 =
     .ok ([[[some (.val 0), some (.val 11), some (.val 22)], [some (.val 103), some (.val 114), some (.val 125)]]], 6) := by rfl
 example : applyParallelSt counting false 1 2 3 0 2 [2, 0, 1] =
     .ok ([[[some (.val 0), some (.val 11), some (.val 20)], [some (.val 101), some (.val 110), some (.val 121)]]], 0) := by rfl
+
+end Example
+
+/-! ### the history of the instance: `apply` re-derives the helper objects, then maps the instance's own location function
+    (`Model/GridRefresh.lean`).  Quantifiers "configurations" (also those reached by assigning settings on an existing
+    instance) and "schedules" (whatever the instance did before). -/
+
+/-- a pool's chunk size is ≥ 1 and its completion order is some permutation of the chunks -/
+def RunModeOk (nx ny : Nat) : RunMode → Prop
+  | .serial => True
+  | .pool k sched => 1 ≤ k ∧ sched.Perm (List.range (chunksOf k (pairIndices nx ny)).length)
+
+/-- **Whatever state `s0` the history left the instance in**, every run mode of `apply` returns `(out, s)` iff the instance is
+    left re-derived (`s = refresh s0`) and `out` is the stateless serial run of the re-derived instance's location function. -/
+theorem refreshed_instance_run_iff {σ : Type} (refresh : σ → σ) (f : StCell σ α ε) (hf : PureSt f) (fs : Bool) (T nx ny : Nat)
+    (s0 : σ) (m : RunMode) (hm : RunModeOk nx ny m) (out : Arr3 (Elem α)) (s : σ) :
+    applyRefresh refresh f fs T nx ny s0 m = .ok (out, s) ↔
+      s = refresh s0 ∧ applySerial (frozen f (refresh s0)) fs T nx ny = .ok out := by
+  cases m with
+  | serial =>
+    simp only [applyRefresh, serialSt_pure f hf]
+    cases h : applySerial (frozen f (refresh s0)) fs T nx ny with
+    | error e => simp [Except.map]
+    | ok o =>
+      simp only [Except.map, Except.ok.injEq, Prod.mk.injEq]
+      constructor
+      · rintro ⟨h1, h2⟩; exact ⟨h2.symm, h1⟩
+      · rintro ⟨h1, h2⟩; exact ⟨h2, h1.symm⟩
+  | pool k sched => exact parallelSt_ok_iff f hf fs T nx ny (refresh s0) k hm.1 sched hm.2 out s
+
+/-- … hence **parallel = serial on an instance with any history** (array and the state the instance is left in) -/
+theorem refreshed_instance_parallel_iff_serial {σ : Type} (refresh : σ → σ) (f : StCell σ α ε) (hf : PureSt f) (fs : Bool)
+    (T nx ny : Nat) (s0 : σ) (k : Nat) (hk : 1 ≤ k) (sched : List Nat)
+    (hs : sched.Perm (List.range (chunksOf k (pairIndices nx ny)).length)) (out : Arr3 (Elem α)) (s : σ) :
+    applyRefresh refresh f fs T nx ny s0 (.pool k sched) = .ok (out, s) ↔
+      applyRefresh refresh f fs T nx ny s0 .serial = .ok (out, s) := by
+  rw [refreshed_instance_run_iff refresh f hf fs T nx ny s0 (.pool k sched) ⟨hk, hs⟩,
+      refreshed_instance_run_iff refresh f hf fs T nx ny s0 .serial trivial]
+
+/-- **two instances that re-derive to the same state give the same run** — e.g. one constructed with the settings and one on
+    which they were assigned later, or one that has worked on other data before (no purity needed) -/
+theorem history_irrelevant {σ : Type} (refresh : σ → σ) (f : StCell σ α ε) (fs : Bool) (T nx ny : Nat)
+    (s0 s1 : σ) (h : refresh s0 = refresh s1) (m : RunMode) :
+    applyRefresh refresh f fs T nx ny s0 m = applyRefresh refresh f fs T nx ny s1 m := by
+  cases m <;> simp only [applyRefresh, h]
+
+/-- **the column at every cell is what the instance, as `apply` left it, returns for that cell alone** (`f s (i, j)`, the
+    per-location call made on the very instance after the grid call), in every run mode -/
+theorem refreshed_instance_cellwise {σ : Type} (refresh : σ → σ) (f : StCell σ α ε) (hf : PureSt f) (fs : Bool) (T nx ny : Nat)
+    (s0 : σ) (m : RunMode) (hm : RunModeOk nx ny m) (out : Arr3 (Elem α)) (s : σ)
+    (h : applyRefresh refresh f fs T nx ny s0 m = .ok (out, s))
+    (i j : Nat) (hi : i < nx) (hj : j < ny) (v : List α) (hv : (f s (i, j)).1 = .ok v) (hl : v.length = T) :
+    s = refresh s0 ∧ slice out i j = v.map (fun x => some (.val x)) := by
+  obtain ⟨hs, hser⟩ := (refreshed_instance_run_iff refresh f hf fs T nx ny s0 m hm out s).mp h
+  subst hs
+  exact ⟨rfl, apply_cellwise (frozen f (refresh s0)) fs T nx ny .serial trivial out hser i j hi hj v hv hl⟩
+
+namespace Example
+
+/-- instance state = (window-length setting, window length of the derived helper object); the location function reads the helper -/
+def windowed : StCell (Nat × Nat) Nat String := fun s c => (.ok [100 * c.1 + 10 * c.2 + s.2], s)
+
+/-- `__attrs_post_init__`: the helper object is rebuilt from the setting -/
+def rederive : Nat × Nat → Nat × Nat := fun s => (s.1, s.1)
+
+example : PureSt windowed := fun _ _ => rfl
+
+/-- setting 91 assigned after construction (helper still 31): serial = pool = the instance constructed with 91 (hypotheses of
+    the theorems above satisfied by a concrete instance: 1×2 grid, chunks of 1 completed in the order 1, 0) -/
+example : RunModeOk 1 2 (.pool 1 [1, 0]) := ⟨Nat.le_refl 1, by decide⟩
+example : applyRefresh rederive windowed false 1 1 2 (91, 31) .serial =
+    applyRefresh rederive windowed false 1 1 2 (91, 31) (.pool 1 [1, 0]) := by rfl
+example : applyRefresh rederive windowed false 1 1 2 (91, 31) (.pool 1 [1, 0]) =
+    applyRefresh rederive windowed false 1 1 2 (91, 91) (.pool 1 [1, 0]) := by rfl
+
+/-- legacy / negative: re-deriving only on a copy that the serial branch maps lets the two branches disagree (91 vs 31) -/
+example : applyRefreshCopy rederive windowed false 1 1 2 (91, 31) .serial =
+    .ok ([[[some (.val 91), some (.val 101)]]], (91, 31)) := by rfl
+example : applyRefreshCopy rederive windowed false 1 1 2 (91, 31) (.pool 1 [1, 0]) =
+    .ok ([[[some (.val 31), some (.val 41)]]], (91, 31)) := by rfl
 
 end Example
 
